@@ -45,6 +45,7 @@ func NewBarrier(count int, f func(msgTs uint64, b *Barrier), u func(vchannel str
 			select {
 			case <-barrier.CloseChan:
 			case signal := <-barrier.BarrierSignalChan:
+				verifYield("barrier:signal", signal.VChannel, -1)
 				if u != nil {
 					u(signal.VChannel, signal.Msg)
 				}
